@@ -59,6 +59,14 @@ func init() {
 	_ = GenericRegister[schema.ResponseMeta]("_eino_response_meta")
 	_ = GenericRegister[schema.TokenUsage]("_eino_token_usage")
 	_ = GenericRegister[schema.LogProbs]("_eino_log_probs")
+	_ = GenericRegister[schema.ChatMessagePartType]("_eino_chat_message_part_type")
+	_ = GenericRegister[schema.ChatMessageImageURL]("_eino_chat_message_image_url")
+	_ = GenericRegister[schema.ImageURLDetail]("_eino_image_url_detail")
+	_ = GenericRegister[schema.ChatMessageAudioURL]("_eino_chat_message_audio_url")
+	_ = GenericRegister[schema.ChatMessageVideoURL]("_eino_chat_message_video_url")
+	_ = GenericRegister[schema.ChatMessageFileURL]("_eino_chat_message_file_url")
+	_ = GenericRegister[schema.LogProb]("_eino_log_prob")
+	_ = GenericRegister[schema.TopLogProb]("_eino_top_log_prob")
 }
 
 func GenericRegister[T any](key string) error {
